@@ -195,18 +195,18 @@ theorem nil_bytes_not_null :
 
 /-- a slice of a defined byte type is shown as an array of numbers, not base64 -/
 theorem named_bytes_as_array :
-    showInJSON witnessNamedBytes = .ok [0x5B, 0x31, 0x5D] ∧
-    absStd .json witnessNamedBytes = .str [0x41, 0x51, 0x3D, 0x3D] := by
-  constructor
-  · rw [showInJSON, showV]; simp [Mode.branch, jsonBranch, Mode.lits, jsonLits, joinElems, natDigits, digitChar]
-  · rfl
+    showInJSON witnessNamedBytes = .ok (0x5B :: (natDigits 1 ++ [0x5D])) ∧
+    absScriggo .json witnessNamedBytes = .arr [.num (natDigits 1)] ∧
+    absStd .json witnessNamedBytes = .str [0x41, 0x51, 0x3D, 0x3D] := ⟨rfl, rfl, rfl⟩
 
-/-- JSON drops the fraction of a second that encoding/json (RFC3339Nano) keeps -/
+/-- JSON drops the fraction of a second that encoding/json (RFC3339Nano) keeps:
+`"2000-01-01T00:00:00Z"` against `"2000-01-01T00:00:00.5Z"` -/
 theorem time_fraction_dropped :
-    absScriggo .json witnessFraction ≠ absStd .json witnessFraction := by
-  unfold absScriggo absStd witnessFraction
-  rw [abs, abs]
-  simp [Mode.isJS, fmtRFC3339Nano, fmtRFC3339]
+    absScriggo .json witnessFraction
+      = .str [0x32,0x30,0x30,0x30,0x2D,0x30,0x31,0x2D,0x30,0x31,0x54,0x30,0x30,0x3A,0x30,0x30,0x3A,0x30,0x30,0x5A] ∧
+    absStd .json witnessFraction
+      = .str [0x32,0x30,0x30,0x30,0x2D,0x30,0x31,0x2D,0x30,0x31,0x54,0x30,0x30,0x3A,0x30,0x30,0x3A,0x30,0x30,0x2E,0x35,0x5A] :=
+  ⟨rfl, rfl⟩
 
 /-! ## map keys -/
 
